@@ -35,7 +35,8 @@ Solvent(q, M) == MonPools(q, M) /\ MonCollateral(q, M) /\ MonVault(q, M)
      R2  every vault movement is matched by the recorded balances: for each token the vault changes
          by exactly the sum of the changes of the balances attributed to it (a hop is zero-sum)
      R3  markets the instruction does not name are unchanged
-     R4  create_* / close_* of user actions move tokens between users and escrows only: no market, no vault
+     R4  create_* / close_* of user actions move tokens between users and escrows only, configuration and ADL-state
+         updates move nothing: no market balance or pool, no vault
      R5  claim_fees_from_market empties the claimable fee of that side and pays exactly it out
      R6  market_transfer_in adds exactly the amount to vault and balance, pools unchanged *)
 R1(e) == ~e.ok => e.post = e.pre
@@ -44,7 +45,8 @@ R2(e, M) == e.op = "donate" \/ \A t \in DOMAIN e.pre.vault :
 R3(e, M) == \A m \in DOMAIN M : (\A k \in DOMAIN e.touched : e.touched[k] # m) => MarketView(e.post, m) = MarketView(e.pre, m)
 IsCreateOrClose(op) == op \in {"create_deposit", "close_deposit", "create_withdrawal", "close_withdrawal",
                                "create_order", "close_order", "create_shift", "close_shift",
-                               "create_increase", "close_increase", "create_decrease", "close_decrease"}
+                               "create_increase", "close_increase", "create_decrease", "close_decrease", "close_cut_order",
+                               "update_market_config", "update_adl_state"}
 R4(e) == IsCreateOrClose(e.op) => e.post = e.pre
 R5(e, M) == (e.op = "claim_fees" /\ e.ok) =>
               LET m == e.touched[1] IN
